@@ -12,7 +12,7 @@
 //    processed, vertex 4 leaves t0, and when the loop reaches S2, erase_max(S2) does t0.at(4) (l.238) -> throws.
 // The order in which the copy is walked comes from std::unordered_set (libstdc++ here).
 //
-// Build: g++ -std=gnu++17 -O1 -g -fsanitize=address,undefined -I/tmp/seed/P16/src/Toplex_map/include defect_1.cpp -o defect_1
+// Build: g++ -std=gnu++17 -O1 -g -fsanitize=address,undefined -I/repo/src/Toplex_map/include defect_1.cpp -o defect_1
 #include <gudhi/Lazy_toplex_map.h>
 #include <gudhi/Toplex_map.h>
 #include <cstdio>
